@@ -21,7 +21,8 @@ NP_KINDS = ["none", "radius", "knn", "lsh", "clusters", "tree"]
 TREE_OK = ("eg", "ucb", "ts")
 LABELS = {
     "int": [0, 1, 2, 3, 4, 5, 6, 7, 8],
-    "str": ["a", "b", "c", "d", "e", "f", "g", "h", "i"],
+    # string labels of different lengths where one label is a prefix of another (fixed-width numpy string arrays!)
+    "str": ["a", "b", "ab", "c", "abc", "bb", "d", "ba", "cd"],
     "float": [0.5, 1.5, 2.5, 3.5, 4.5, 5.5, 6.5, 7.5, 8.5],
     "negint": [-3, 10, -7, 2, 5, -1, 8, 0, 4],
     "strrev": ["z", "y", "x", "w", "v", "u", "t", "s", "r"],
@@ -70,13 +71,13 @@ def gen_lp(rs, kind, deterministic=False, binarizer=None):
         return {"kind": "rnd"}
     if kind == "lingreedy":
         return {"kind": "lingreedy", "epsilon": 0.0 if deterministic else float(pick(rs, [0.0, 0.0, 0.25, 1.0])),
-                "l2": float(pick(rs, [0.01, 0.5, 1.0, 3.0, 10.0])), "scale": False}
+                "l2": float(pick(rs, [0.01, 0.5, 1.0, 3.0, 10.0])), "scale": bool(rs.integers(4) == 0)}
     if kind == "lints":
         return {"kind": "lints", "alpha": float(pick(rs, [0.5, 1.0, 2.5, 1e-9 if deterministic else 0.25])),
-                "l2": float(pick(rs, [0.01, 0.5, 1.0, 3.0, 10.0])), "scale": False}
+                "l2": float(pick(rs, [0.01, 0.5, 1.0, 3.0, 10.0])), "scale": bool(rs.integers(4) == 0)}
     if kind == "linucb":
         return {"kind": "linucb", "alpha": float(pick(rs, [0.0, 0.5, 1.0, 2.5])),
-                "l2": float(pick(rs, [0.01, 0.5, 1.0, 3.0, 10.0])), "scale": False}
+                "l2": float(pick(rs, [0.01, 0.5, 1.0, 3.0, 10.0])), "scale": bool(rs.integers(4) == 0)}
     raise ValueError(kind)
 
 
